@@ -704,7 +704,7 @@ class Interp(StmtMixin):
             present = z3.Contains(ks.t, z3.Unit(key.t))
             if self.spec_mode:
                 vty = mp.ty[2]
-                vty = ("ref", self.c.get("dict_values", {}).get(cls, "opaque")) if vty == "int" else vty
+                vty = ("ref", models.CLASSES[cls].get("elem") or self.c.get("dict_values", {}).get(cls, "opaque")) if vty == "int" else vty
                 yield st, Val(z3.Select(mp.t, key.t), vty)
                 return
             s_no = st.assume(z3.Not(present))
@@ -713,7 +713,7 @@ class Interp(StmtMixin):
             s_yes = st.assume(present)
             if self.feasible(s_yes):
                 vty = mp.ty[2]
-                vty = ("ref", self.c.get("dict_values", {}).get(cls, "opaque")) if vty == "int" else vty
+                vty = ("ref", models.CLASSES[cls].get("elem") or self.c.get("dict_values", {}).get(cls, "opaque")) if vty == "int" else vty
                 yield s_yes, Val(z3.Select(mp.t, key.t), vty)
             return
         if (isinstance(base.ty, tuple) and base.ty[0] == "seq") or (is_ref(base.ty) and (base.ty[1] == "deque" or base.ty[1].startswith("list_"))):
@@ -858,7 +858,7 @@ class Interp(StmtMixin):
                 if not (isinstance(g.target, ast.Tuple) and len(g.target.elts) == 2):
                     raise Unsupported("items() target")
                 vty = mp.ty[2]
-                vty = ("ref", self.c.get("dict_values", {}).get(it.ty[1], "opaque")) if vty == "int" else vty
+                vty = ("ref", models.CLASSES[it.ty[1]].get("elem") or self.c.get("dict_values", {}).get(it.ty[1], "opaque")) if vty == "int" else vty
                 s2.env[g.target.elts[0].id] = Val(ks.t[i], ks.ty[1])
                 s2.env[g.target.elts[1].id] = Val(z3.Select(mp.t, ks.t[i]), vty)
             else:
@@ -878,15 +878,22 @@ class Interp(StmtMixin):
             rk = fresh_const("dk", z3.SeqSort(kv.t.sort()))
             rm = fresh_const("dm", z3.ArraySort(kv.t.sort(), vv.t.sort()))
             rng = z3.And(i >= 0, i < n)
+            identity_copy = items_of is not None and z3.eq(kv.t, ks.t[i]) and z3.eq(vv.t, z3.Select(mp.t, ks.t[i]))
+            if identity_copy:
+                # {k: v for k, v in d.items()}: a copy — same key sequence, same content (no fresh sequence to reason about)
+                rk, rm = ks.t, mp.t
             # distinct keys: kexpr(i) != kexpr(j) for i != j
             j = fresh_const("dj", I)
             kj = z3.substitute(kv.t, (i, j))
             self.oblige(st1, "dictcomp-distinct", "keys produced by the dict comprehension are pairwise distinct",
                         z3.ForAll([i, j], z3.Implies(z3.And(rng, j >= 0, j < n, i != j), kv.t != kj)), getattr(e, "lineno", None))
             s3 = st1.assume(z3.Length(rk) == n)
-            s3 = s3.assume(z3.ForAll([i], z3.Implies(rng, z3.And(rk[i] == kv.t, z3.Select(rm, kv.t) == vv.t)), patterns=[rk[i]]))
+            if not identity_copy:
+                s3 = s3.assume(z3.ForAll([i], z3.Implies(rng, z3.And(rk[i] == kv.t, z3.Select(rm, kv.t) == vv.t)), patterns=[rk[i]]))
             # the new dict is a fresh heap object
             vcls = "dict_str_str" if (kv.ty == "str" and vv.ty == "str") else ("dict_str_ref" if kv.ty == "str" and (is_ref(vv.ty) or vv.ty == "int") else None)
+            if is_ref(vv.ty) and f"dict_{vv.ty[1]}" in models.CLASSES:
+                vcls = f"dict_{vv.ty[1]}"
             if vcls is None:
                 raise Unsupported(f"dict comprehension of {kv.ty} -> {vv.ty}")
             d = self.alloc(s3, vcls)
